@@ -20,7 +20,7 @@ def cast_nested_vec(case):
 
 def kinds_matrix(ck, tier):
     """Every array kind (cast) x a menu of views with ct / rt arguments x compile-time shapes (drv_kinds, one binary per shape)."""
-    sids = [0, 1, 2, 4] if tier == "quick" else sorted(KIND_SHAPES)
+    sids = [0, 1, 2, 4, 6] if tier == "quick" else sorted(KIND_SHAPES)
     drvs = vlib.build_drivers([dict(name="drv_kinds", flags=("-O0", f"-DSHAPE_ID={sid}"), tag=f"_s{sid}") for sid in sids])
     n = 0
     for sid, drv in zip(sids, drvs):
